@@ -20,6 +20,7 @@ FIXED = [
  ("C01","4b5e453","panic: runtime error: slice bounds out of range @seehuhn.de/go/postscript/type1.","charstring `0 0 callothersubr` panicked in the charstring decoder (slice [:-1])"),
  ("C01","25ffaad","C01:crash:ps-operator:bind","`bind` on two 12-slot procedures that contain each other in every slot walked (n!)^2 paths: a hang inside one operation that no budget stops"),
  ("C01","0bc1881","panic: runtime error: index out of range @seehuhn.de/go/postscript.defaultErrorHandlerFn","`errordict /typecheck get exec` ran the default error handler with no pending error: index out of range [-1] (found by an independent seeding agent; C01 now enumerates error-handler objects as operands)"),
+ ("C01","17d4547","C01:crash:charstring-call-fan-out","a font of about one kilobyte whose subroutines call each other nine levels deep, each level calling the next one 12 times, made type1.Read build hundreds of millions of path commands until the process died with `fatal error: out of memory` (8 calls per level: 13 s and 16.7 million commands); charstring operators are now counted per font (hint from a seeding agent's closing remark; C01 family charstring-call-fan-out)"),
  ("C03","fd1b9e3","C03:shapes:state:stack-depth:{exec,lit}","`{ {1 2} } exec` executed the inner procedure (procedure literal in tail position run instead of pushed)"),
  ("C03","9f20894","C03:shapes:unexpected-error:invalidexit:{repeat,exit}","`3 {exit} repeat` reported invalidexit; `stop` inside repeat only ended the loop (errStop/errExit swapped)"),
  ("C03","504480d","C03:dictstack:state:value:{dict}","`{/add} bind` replaced the literal name /add by the operator"),
@@ -38,6 +39,7 @@ FIXED = [
  ("C04","d1332c2","C04:string:literal:line-feeds-after-CR-LF-dropped","in a literal string every LF following a CR was dropped: (a\\r\\n\\nb) read as a\\nb"),
  ("C05","bf914e0","C05:dictstack-restore:error","an encrypted part that closes dictionaries opened before `eexec` and then opens a new one (`end 1 dict begin`) got the wrong dictionary stack back after the section: the re-slice to the former depth resurrected the overwritten slot (`2 dict begin /marker0 70 def currentfile eexec ... cleartomark marker0` → undefined; found after a round-2 seed made C05 enumerate what the encrypted part does to the dictionary stack)"),
  ("C17","26f593c","C17:order-dependent:Metrics.Write","glyph boxes whose edges are +0 in one glyph and -0 in another (an AFM file may say `B -0 0 400 700`): the union was accumulated in map order, so Metrics.FontBBoxPDF and the `FontBBox` line of Metrics.Write came out as `-0 0 …` or `0 -0 …` from one call to the next; Font.FontBBox / FontBBoxPDF likewise (keys C17:order-dependent:Metrics.Write, C17:order-dependent:afm write+read, C17:order-dependent:Font boxes and Font.Write; the hint came from a seeding agent's side remark)"),
+ ("C05","dc589e1","C05:dictstack-restore:limit","`currentfile eexec` entered with 20 dictionaries on the dictionary stack pushed systemdict as the 21st entry and ran the section, where `systemdict begin` followed by the plaintext fails with dictstackoverflow (C05 family dictstack-restore with 15..18 extra dictionaries open)"),
  ("C16","c23956e","C16:glyphlist:multi-code-entry-maps-to-U+0000","the 81 glyph list entries denoting several characters mapped to U+0000 (ToUnicode(\"dalethatafpatah\") = [0000] instead of [05D3 05B2])"),
 ]
 OPEN = [
